@@ -636,6 +636,14 @@ func runC08(c *Ctx) {
 		}
 	}
 
+	// development aid: VERIF_C08_ONLY=lex runs the lexer-level phases only
+	if os.Getenv("VERIF_C08_ONLY") == "lex" {
+		c08Tokens(c)
+		c08Regex(c)
+		c08TokenStream(c)
+		return
+	}
+
 	// ---- 0 + 2. corpus and API-level monitors, in a child process: a fatal Go error
 	// (stack overflow, out of memory) in the code under test cannot be recovered in-process.
 	// The child runs concurrently with the other phases; its result is merged at the end. ----
@@ -651,6 +659,9 @@ func runC08(c *Ctx) {
 
 	// ---- 1. token-level correspondence ----
 	c08Tokens(c)
+	// ---- 1b. regex model vs Go regexp; 1c. whole tokenizer: token streams vs the model ----
+	c08Regex(c)
+	c08TokenStream(c)
 	// ---- 3. src_stm action: Go vs model ----
 	c08SrcAction(c)
 	// ---- 3b. include trees with planted errors: every returned error is rendered (child process) ----
